@@ -18,7 +18,7 @@ THEOREMS = [
     'Pfst.C02.wf_cacheOnly', 'Pfst.C02.step_wf', 'Pfst.C02.run_wf', 'Pfst.C02.wfB_iff', 'Pfst.C02.admissibleB_sound', 'Pfst.C02.step_wfB',
     'Pfst.C02.root_identity', 'Pfst.C02.touch_preserves_links', 'Pfst.C02.linkInv_mem',
     'Pfst.C02.offset_touches_changed', 'Pfst.C02.offset_cache_coherent', 'Pfst.C02.view_heal', 'Pfst.C02.view_len',
-    'Pfst.C02.view_ops_valid', 'Pfst.C02.slicePut_flushes_children', 'Pfst.C02.unpar_flushes_self',
+    'Pfst.C02.view_ops_valid', 'Pfst.C02.slicePut_flushes_children', 'Pfst.C02.unpar_flushes_self', 'Pfst.C02.offsetLns_flushes_subtree',
     'Pfst.C02.renumber_positions', 'Pfst.C02.setPos_touches_changed', 'Pfst.C02.setPos_written',
     'Pfst.C02.setPos_guard', 'Pfst.C02.setPos_idempotent',
 ]
